@@ -503,7 +503,7 @@ Proof.
     - intros c0. apply R_wd_same. reflexivity.
     - intros a b0 c0 H1 H2 Ha. apply H2. apply H1. exact Ha.
     - intros e c0 m c' acks [He Eu] Hvb Hx.
-      destruct m as [am|dm|pm|f t amt|f t amt et|g r u ex|g r u];
+      destruct m as [am|dm|pm|f t amt|f t amt et|g r u ex|g r u|f amt outs];
         try (apply (R_wd_same _ c0 c'); eapply exec_base_aol_frame; [exact Hx | intros am0; discriminate]).
       simpl in Hx. intros [Hi0 Hw0]. destruct (exec_aol_inv e c0 am c' acks He Hi0 Hx) as [Hi' _].
       split; [exact Hi'|]. rewrite <- Eu in Hw0 |- *. exact (exec_aol_wd e c0 am c' acks He Hi0 Hw0 Hx).
